@@ -730,7 +730,12 @@ def observe(e, spec_kind):
         sections = dict(vertices=mesh.vertex_list.description, edges=mesh.edge_list.description,
                         faces=mesh.face_list.description, patches=mesh.patch_list.description,
                         geometry=mesh.geometry_list.description)
-        return dict(verts=verts, edges=edges, ordered=False, used=sorted(used), defined=sorted(defined), sections=sections)
+        out = dict(verts=verts, edges=edges, ordered=False, used=sorted(used), defined=sorted(defined), sections=sections)
+        from classy_blocks.construct.operations.operation import Operation
+        if isinstance(e, Operation):
+            # which face is the bottom and which the top (Operation.mirror swaps them, a listed Mirror does not)
+            out["faces_bt"] = [[[float(x) for x in p.position] for p in fc.points] for fc in (e.bottom_face, e.top_face)]
+        return out
 
 
 SKETCH_SCALARS = ("side_1", "side_2", "width_1", "width_2", "r_1", "r_2", "r_1_outer", "r_2_outer")
@@ -844,6 +849,23 @@ def oracle_transform(obs0, obs1, amap):
         missing = [l for l in obs1["used"] if l is not None and l not in obs1["defined"] and l != "geo"]
         if missing:
             return "geometry-undefined: projected to %r but only %r defined" % (missing, obs1["defined"])
+    return None
+
+
+def oracle_face_order(obs0, obs1, amap, swapped):
+    """Bottom and top face of a transformed operation: the images of the original bottom and top face, swapped
+    when the operation was turned over (Operation.mirror: `bottom and top face are swapped after mirroring`;
+    Operation.transform with a Mirror: mirrored only, `use Operation.invert() to put it back in shape`)."""
+    np = _np()
+    L, b = amap[0], amap[1]
+    tol = TOL_CLOSED * max(_size(obs0), _size(obs1)) * 10
+    for which, name in ((0, "bottom"), (1, "top")):
+        src = np.array(obs0["faces_bt"][1 - which if swapped else which], dtype=float)
+        got = np.array(obs1["faces_bt"][which], dtype=float)
+        if src.shape != got.shape or float(np.abs(src @ L.T + b - got).max()) > tol:
+            return "face-order: the %s face is not the image of the original %s face (%s)" % (
+                name, ("top" if which == 0 else "bottom") if swapped else name,
+                "an odd number of mirror() calls swaps the faces" if swapped else "faces keep their places")
     return None
 
 
@@ -1234,6 +1256,9 @@ def check_transform_case(case):
     except Exception as ex:
         return "exception: %s: %s" % (type(ex).__name__, str(ex)[:150])
     why = oracle_transform(obs0, obs1, amap)
+    if why is None and "faces_bt" in obs0:
+        n_mirror = sum(1 for t in tlist if t[0] == "mirror")
+        why = oracle_face_order(obs0, obs1, amap, swapped=(mode == "method" and n_mirror % 2 == 1))
     if mode == "list":
         # entity.transform([t1, t2, ...]) must be entity.<t1>(...).<t2>(...) on ANY entity, own overrides included
         # (an operation mirrored through a list is not inverted: same geometry, side edges running the other way -
